@@ -1,0 +1,271 @@
+//go:build verif
+
+// Contracts for the verifier in /verif (comment-only; compiled only with -tags verif, adds no code).
+package decoder
+
+// ---- C09/C02: count.index and each.key / each.value are local-only targets (no absolute address) declared by
+// ---- the count / for_each attribute: their range is that attribute, their definition range its name, and
+// ---- they are visible from exactly the body range handed in.
+//@ spec localPair(a lang.Address, root string, attr string) bool = len(a) == 2 && typeis(a[0], "lang.RootStep") && as(a[0], "lang.RootStep").Name == root && typeis(a[1], "lang.AttrStep") && as(a[1], "lang.AttrStep").Name == attr
+//@ spec declaredBy(t reference.Target, attr *hcl.Attribute) bool = t.RangePtr != nil && *t.RangePtr == attr.Range && t.DefRangePtr != nil && *t.DefRangePtr == attr.NameRange
+//@ contract decoder.countIndexReferenceTarget (attr, bodyRange) (result)
+//@   requires attr != nil
+//@   ensures [C09,name:address-is-count-index] localPair(result.LocalAddr, "count", "index") && len(result.Addr) == 0
+//@   ensures [C09,name:type-is-number] result.Type == cty.Number
+//@   ensures [C09,C02,name:range-is-the-count-attribute] declaredBy(result, old(attr))
+//@   ensures [C09,C02,name:visible-from-the-body-handed-in] result.TargetableFromRangePtr != nil && *result.TargetableFromRangePtr == bodyRange
+//@ contract decoder.forEachReferenceTargets (attr, bodyRange) (result)
+//@   requires attr != nil
+//@   ensures [C09,name:exactly-key-and-value] len(result) == 2
+//@   ensures [C09,name:address-is-each-key] localPair(result[0].LocalAddr, "each", "key")
+//@   ensures [C09,name:address-is-each-value] localPair(result[1].LocalAddr, "each", "value")
+//@   ensures [C09,name:key-is-a-string-value-is-dynamic] result[0].Type == cty.String && result[1].Type == cty.DynamicPseudoType
+//@   ensures [C09,C02,name:range-is-the-for-each-attribute] declaredBy(result[0], old(attr)) && declaredBy(result[1], old(attr))
+//@   ensures [C09,C02,name:visible-from-the-body-handed-in] result[0].TargetableFromRangePtr != nil && *result[0].TargetableFromRangePtr == bodyRange && result[1].TargetableFromRangePtr != nil && *result[1].TargetableFromRangePtr == bodyRange
+
+// ---- C09/C02: the target of a whole collection value. It exists exactly when the value is addressable as an
+// ---- expression type and its constraint yields a type; its address (absolute and local), scope and name are
+// ---- the ones the context declares, its type the collection type over the declared element type, its range
+// ---- the declaration's extent when the context carries one and otherwise the expression's own range, its
+// ---- definition range and visibility range those of the context, and the handed element targets are nested
+// ---- under it (not dropped, not replaced).
+//@ spec sameSteps(a lang.Address, b lang.Address) bool = len(a) == len(b) && forall(j, 0, len(b), a[j] == b[j])
+//@ spec rangeFromCtx(t reference.Target, tc *decoder.TargetContext, own hcl.Range) bool = t.RangePtr != nil && implies(tc.ParentRangePtr != nil, *t.RangePtr == *tc.ParentRangePtr) && implies(tc.ParentRangePtr == nil, *t.RangePtr == own)
+//@ spec defRangeFromCtx(t reference.Target, tc *decoder.TargetContext) bool = (t.DefRangePtr == nil) == (tc.ParentDefRangePtr == nil) && implies(tc.ParentDefRangePtr != nil, *t.DefRangePtr == *tc.ParentDefRangePtr)
+//@ spec visibleFromCtx(t reference.Target, tc *decoder.TargetContext) bool = (t.TargetableFromRangePtr == nil) == (tc.TargetableFromRangePtr == nil) && implies(tc.TargetableFromRangePtr != nil, *t.TargetableFromRangePtr == *tc.TargetableFromRangePtr)
+//@ contract (decoder.List).wholeListReferenceTargets (list, targetCtx, nestedTargets) (result)
+//@   requires targetCtx != nil
+//@   ghost typed after invoke:ConstraintType#1 : ok
+//@   ghost elemTyp after invoke:ConstraintType#1 : elemType
+//@   assert before invoke:ConstraintType#1 : [C09,name:element-type-comes-from-the-element-constraint] elemCons == list.cons.Elem
+//@   ensures [C09,name:one-target-exactly-when-the-element-constraint-yields-a-type] len(result) == ite(typed, 1, 0)
+//@   ensures [C09,name:at-most-the-one-target-of-the-whole-value] len(result) <= 1
+//@   ensures [C09,name:nothing-unless-addressable-as-expression-type] implies(!targetCtx.AsExprType, len(result) == 0)
+//@   ensures [C09,name:address-is-the-declared-one] implies(len(result) == 1, sameSteps(result[0].Addr, targetCtx.ParentAddress))
+//@   ensures [C09,name:local-address-is-the-declared-one] implies(len(result) == 1, sameSteps(result[0].LocalAddr, targetCtx.ParentLocalAddress) && (result[0].LocalAddr == nil) == (targetCtx.ParentLocalAddress == nil))
+//@   ensures [C09,name:scope-and-name-as-declared] implies(len(result) == 1, result[0].ScopeId == targetCtx.ScopeId && result[0].Name == targetCtx.FriendlyName)
+//@   ensures [C09,name:type-is-list-of-the-declared-element-type] implies(len(result) == 1, result[0].Type == cty.List(elemTyp))
+//@   ensures [C09,C02,name:range-is-the-declaration-or-the-value-itself] implies(len(result) == 1, rangeFromCtx(result[0], targetCtx, list.expr.Range()))
+//@   ensures [C09,C02,name:definition-range-as-declared] implies(len(result) == 1, defRangeFromCtx(result[0], targetCtx))
+//@   ensures [C09,C02,name:visibility-range-as-declared] implies(len(result) == 1, visibleFromCtx(result[0], targetCtx))
+//@   ensures [C09,name:element-targets-are-nested] implies(len(result) == 1, result[0].NestedTargets == nestedTargets)
+//@ contract (decoder.Map).wholeMapReferenceTargets (m, targetCtx, nestedTargets) (result)
+//@   requires targetCtx != nil
+//@   ghost typed after invoke:ConstraintType#1 : ok
+//@   ghost elemTyp after invoke:ConstraintType#1 : elemType
+//@   assert before invoke:ConstraintType#1 : [C09,name:element-type-comes-from-the-element-constraint] elemCons == m.cons.Elem
+//@   ensures [C09,name:one-target-exactly-when-the-element-constraint-yields-a-type] len(result) == ite(typed, 1, 0)
+//@   ensures [C09,name:at-most-the-one-target-of-the-whole-value] len(result) <= 1
+//@   ensures [C09,name:nothing-unless-addressable-as-expression-type] implies(!targetCtx.AsExprType, len(result) == 0)
+//@   ensures [C09,name:address-is-the-declared-one] implies(len(result) == 1, sameSteps(result[0].Addr, targetCtx.ParentAddress))
+//@   ensures [C09,name:local-address-is-the-declared-one] implies(len(result) == 1, sameSteps(result[0].LocalAddr, targetCtx.ParentLocalAddress) && (result[0].LocalAddr == nil) == (targetCtx.ParentLocalAddress == nil))
+//@   ensures [C09,name:scope-and-name-as-declared] implies(len(result) == 1, result[0].ScopeId == targetCtx.ScopeId && result[0].Name == targetCtx.FriendlyName)
+//@   ensures [C09,name:type-is-map-of-the-declared-element-type] implies(len(result) == 1, result[0].Type == cty.Map(elemTyp))
+//@   ensures [C09,C02,name:range-is-the-declaration-or-the-value-itself] implies(len(result) == 1, rangeFromCtx(result[0], targetCtx, m.expr.Range()))
+//@   ensures [C09,C02,name:definition-range-as-declared] implies(len(result) == 1, defRangeFromCtx(result[0], targetCtx))
+//@   ensures [C09,C02,name:visibility-range-as-declared] implies(len(result) == 1, visibleFromCtx(result[0], targetCtx))
+//@   ensures [C09,name:element-targets-are-nested] implies(len(result) == 1, result[0].NestedTargets == nestedTargets)
+//@ contract (decoder.Set).wholeSetReferenceTargets (set, targetCtx, nestedTargets) (result)
+//@   requires targetCtx != nil
+//@   ghost typed after invoke:ConstraintType#1 : ok
+//@   ghost elemTyp after invoke:ConstraintType#1 : elemType
+//@   assert before invoke:ConstraintType#1 : [C09,name:element-type-comes-from-the-element-constraint] elemCons == set.cons.Elem
+//@   ensures [C09,name:one-target-exactly-when-the-element-constraint-yields-a-type] len(result) == ite(typed, 1, 0)
+//@   ensures [C09,name:at-most-the-one-target-of-the-whole-value] len(result) <= 1
+//@   ensures [C09,name:nothing-unless-addressable-as-expression-type] implies(!targetCtx.AsExprType, len(result) == 0)
+//@   ensures [C09,name:address-is-the-declared-one] implies(len(result) == 1, sameSteps(result[0].Addr, targetCtx.ParentAddress))
+//@   ensures [C09,name:local-address-is-the-declared-one] implies(len(result) == 1, sameSteps(result[0].LocalAddr, targetCtx.ParentLocalAddress) && (result[0].LocalAddr == nil) == (targetCtx.ParentLocalAddress == nil))
+//@   ensures [C09,name:scope-and-name-as-declared] implies(len(result) == 1, result[0].ScopeId == targetCtx.ScopeId && result[0].Name == targetCtx.FriendlyName)
+//@   ensures [C09,name:type-is-set-of-the-declared-element-type] implies(len(result) == 1, result[0].Type == cty.Set(elemTyp))
+//@   ensures [C09,C02,name:range-is-the-declaration-or-the-value-itself] implies(len(result) == 1, rangeFromCtx(result[0], targetCtx, set.expr.Range()))
+//@   ensures [C09,C02,name:definition-range-as-declared] implies(len(result) == 1, defRangeFromCtx(result[0], targetCtx))
+//@   ensures [C09,C02,name:visibility-range-as-declared] implies(len(result) == 1, visibleFromCtx(result[0], targetCtx))
+//@   ensures [C09,name:element-targets-are-nested] implies(len(result) == 1, result[0].NestedTargets == nestedTargets)
+//@ contract (decoder.Tuple).wholeTupleReferenceTargets (tuple, targetCtx, nestedTargets) (result)
+//@   requires targetCtx != nil
+//@   ghost typed after (schema.Tuple).ConstraintType#1 : ok && targetCtx.AsExprType
+//@   ghost declTyp after (schema.Tuple).ConstraintType#1 : elemType
+//@   assert before (schema.Tuple).ConstraintType#1 : [C09,name:type-comes-from-the-own-constraint] arg0 == tuple.cons
+//@   ensures [C09,name:one-target-exactly-when-the-constraint-yields-a-type] len(result) == ite(typed, 1, 0)
+//@   ensures [C09,name:at-most-the-one-target-of-the-whole-value] len(result) <= 1
+//@   ensures [C09,name:nothing-unless-addressable-as-expression-type] implies(!targetCtx.AsExprType, len(result) == 0)
+//@   ensures [C09,name:address-is-the-declared-one] implies(len(result) == 1, sameSteps(result[0].Addr, targetCtx.ParentAddress))
+//@   ensures [C09,name:local-address-is-the-declared-one] implies(len(result) == 1, sameSteps(result[0].LocalAddr, targetCtx.ParentLocalAddress) && (result[0].LocalAddr == nil) == (targetCtx.ParentLocalAddress == nil))
+//@   ensures [C09,name:scope-and-name-as-declared] implies(len(result) == 1, result[0].ScopeId == targetCtx.ScopeId && result[0].Name == targetCtx.FriendlyName)
+//@   ensures [C09,name:type-is-the-declared-tuple-type] implies(len(result) == 1, result[0].Type == declTyp)
+//@   ensures [C09,C02,name:range-is-the-declaration-or-the-value-itself] implies(len(result) == 1, rangeFromCtx(result[0], targetCtx, tuple.expr.Range()))
+//@   ensures [C09,C02,name:definition-range-as-declared] implies(len(result) == 1, defRangeFromCtx(result[0], targetCtx))
+//@   ensures [C09,C02,name:visibility-range-as-declared] implies(len(result) == 1, visibleFromCtx(result[0], targetCtx))
+//@   ensures [C09,name:element-targets-are-nested] implies(len(result) == 1, result[0].NestedTargets == nestedTargets)
+//@ contract (decoder.Object).wholeObjectReferenceTargets (obj, targetCtx, nestedTargets) (result)
+//@   requires targetCtx != nil
+//@   ghost typed after (schema.Object).ConstraintType#1 : ok
+//@   ghost declTyp after (schema.Object).ConstraintType#1 : objType
+//@   assert before (schema.Object).ConstraintType#1 : [C09,name:type-comes-from-the-own-constraint] arg0 == obj.cons
+//@   ensures [C09,name:one-target-exactly-when-the-constraint-yields-a-type] len(result) == ite(typed, 1, 0)
+//@   ensures [C09,name:at-most-the-one-target-of-the-whole-value] len(result) <= 1
+//@   ensures [C09,name:nothing-unless-addressable-as-expression-type] implies(!targetCtx.AsExprType, len(result) == 0)
+//@   ensures [C09,name:address-is-the-declared-one] implies(len(result) == 1, sameSteps(result[0].Addr, targetCtx.ParentAddress))
+//@   ensures [C09,name:local-address-is-the-declared-one] implies(len(result) == 1, sameSteps(result[0].LocalAddr, targetCtx.ParentLocalAddress) && (result[0].LocalAddr == nil) == (targetCtx.ParentLocalAddress == nil))
+//@   ensures [C09,name:scope-and-name-as-declared] implies(len(result) == 1, result[0].ScopeId == targetCtx.ScopeId && result[0].Name == targetCtx.FriendlyName)
+//@   ensures [C09,name:type-is-the-declared-object-type] implies(len(result) == 1, result[0].Type == declTyp)
+//@   ensures [C09,C02,name:range-is-the-declaration-or-the-value-itself] implies(len(result) == 1, rangeFromCtx(result[0], targetCtx, obj.expr.Range()))
+//@   ensures [C09,C02,name:definition-range-as-declared] implies(len(result) == 1, defRangeFromCtx(result[0], targetCtx))
+//@   ensures [C09,C02,name:visibility-range-as-declared] implies(len(result) == 1, visibleFromCtx(result[0], targetCtx))
+//@   ensures [C09,name:element-targets-are-nested] implies(len(result) == 1, result[0].NestedTargets == nestedTargets)
+
+// ---- C09/C02: a value under a type constraint (any expression / literal of a type). Nothing is collected unless
+// ---- the context makes the value addressable as an expression type. A primitive (or still unknown) value is
+// ---- one target: address, scope, ranges from the context as above, type the declared type - or, where the
+// ---- declared type is dynamic, the type of the written value. A collection value is handed on, with the same
+// ---- expression and the same context, to the collector of ITS kind, read with the element type(s) of the type.
+//@ spec addressable(tc *decoder.TargetContext) bool = tc != nil && len(tc.ParentAddress) > 0 && tc.AsExprType
+//@ spec leafTarget(t reference.Target, tc *decoder.TargetContext, own hcl.Range) bool = sameSteps(t.Addr, tc.ParentAddress) && sameSteps(t.LocalAddr, tc.ParentLocalAddress) && (t.LocalAddr == nil) == (tc.ParentLocalAddress == nil) && t.ScopeId == tc.ScopeId && rangeFromCtx(t, tc, own) && defRangeFromCtx(t, tc) && visibleFromCtx(t, tc)
+//@ spec litTypeOf(c schema.Constraint) cty.Type = as(c, "schema.LiteralType").Type
+//@ contract (decoder.Any).ReferenceTargets (a, ctx, targetCtx) (result)
+//@   ghost evaluated after (hcl.Diagnostics).HasErrors#1 : true
+//@   ghost evalFailed after (hcl.Diagnostics).HasErrors#1 : callresult
+//@   ghost inferred after (cty.Value).Type#1 : callresult
+//@   ghost viaList after (decoder.List).ReferenceTargets#1 : true
+//@   ghost viaSet after (decoder.Set).ReferenceTargets#1 : true
+//@   ghost viaTuple after (decoder.Tuple).ReferenceTargets#1 : true
+//@   ghost viaMap after (decoder.Map).ReferenceTargets#1 : true
+//@   ghost viaObject after (decoder.Object).ReferenceTargets#1 : true
+//@   ghost attrsOfType after decoder.ctyObjectToObjectAttributes#1 : callresult
+//@   ensures [C09,name:nothing-unless-addressable-as-expression-type] implies(!addressable(targetCtx), len(result) == 0)
+//@   ensures [C09,C02,name:primitive-value-is-one-target-of-the-context] implies(addressable(targetCtx) && (typ.IsPrimitiveType() || typ == cty.DynamicPseudoType), len(result) == 1 && result[0].Type == typ && leafTarget(result[0], targetCtx, a.expr.Range()))
+//@   ensures [C09,name:type-is-the-declared-type] implies(addressable(targetCtx) && a.cons.OfType != cty.DynamicPseudoType && a.cons.OfType.IsPrimitiveType(), len(result) == 1 && result[0].Type == a.cons.OfType)
+//@   ensures [C09,name:type-is-inferred-from-the-value-where-declared-dynamic] implies(addressable(targetCtx) && a.cons.OfType == cty.DynamicPseudoType && evaluated && !evalFailed && inferred.IsPrimitiveType(), len(result) == 1 && result[0].Type == inferred)
+//@   ensures [C09,name:unevaluable-dynamic-value-stays-dynamic] implies(addressable(targetCtx) && a.cons.OfType == cty.DynamicPseudoType && !(evaluated && !evalFailed), len(result) == 1 && result[0].Type == cty.DynamicPseudoType)
+//@   ensures [C09,name:every-collection-kind-is-handed-on] implies(addressable(targetCtx) && !(typ.IsPrimitiveType() || typ == cty.DynamicPseudoType), (!typ.IsListType() || viaList) && (typ.IsListType() || !typ.IsSetType() || viaSet) && (typ.IsListType() || typ.IsSetType() || !typ.IsTupleType() || viaTuple) && (typ.IsListType() || typ.IsSetType() || typ.IsTupleType() || !typ.IsMapType() || viaMap) && (typ.IsListType() || typ.IsSetType() || typ.IsTupleType() || typ.IsMapType() || !typ.IsObjectType() || viaObject))
+//@   assert before (decoder.List).ReferenceTargets#1 : [C09,name:list-read-with-the-element-type] typ.IsListType() && arg0.expr == a.expr && litTypeOf(arg0.cons.Elem) == typ.ElementType() && arg2 == targetCtx
+//@   assert before (decoder.Set).ReferenceTargets#1 : [C09,name:set-read-with-the-element-type] typ.IsSetType() && arg0.expr == a.expr && litTypeOf(arg0.cons.Elem) == typ.ElementType() && arg2 == targetCtx
+//@   assert before (decoder.Map).ReferenceTargets#1 : [C09,name:map-read-with-the-element-type] typ.IsMapType() && arg0.expr == a.expr && litTypeOf(arg0.cons.Elem) == typ.ElementType() && arg2 == targetCtx
+//@   assert before (decoder.Tuple).ReferenceTargets#1 : [C09,name:tuple-read-with-one-constraint-per-element-type] typ.IsTupleType() && arg0.expr == a.expr && len(arg0.cons.Elems) == len(typ.TupleElementTypes()) && arg2 == targetCtx
+//@   loop 1 iter [C09,name:tuple-element-read-with-its-own-type] litTypeOf(cons.Elems[i]) == elemType
+//@   assert before decoder.ctyObjectToObjectAttributes#1 : [C09,name:object-attributes-of-the-type] arg0 == typ
+//@   assert before (decoder.Object).ReferenceTargets#1 : [C09,name:object-read-with-the-attributes-of-the-type] typ.IsObjectType() && arg0.expr == a.expr && arg0.cons.Attributes == attrsOfType && arg2 == targetCtx
+//@ contract (decoder.LiteralType).ReferenceTargets (lt, ctx, targetCtx) (result)
+//@   ghost evaluated after (hcl.Diagnostics).HasErrors#1 : true
+//@   ghost evalFailed after (hcl.Diagnostics).HasErrors#1 : callresult
+//@   ghost inferred after (cty.Value).Type#1 : callresult
+//@   ghost viaList after (decoder.List).ReferenceTargets#1 : true
+//@   ghost viaSet after (decoder.Set).ReferenceTargets#1 : true
+//@   ghost viaTuple after (decoder.Tuple).ReferenceTargets#1 : true
+//@   ghost viaMap after (decoder.Map).ReferenceTargets#1 : true
+//@   ghost viaObject after (decoder.Object).ReferenceTargets#1 : true
+//@   ghost attrsOfType after decoder.ctyObjectToObjectAttributes#1 : callresult
+//@   ensures [C09,name:nothing-unless-addressable-as-expression-type] implies(!addressable(targetCtx), len(result) == 0)
+//@   ensures [C09,C02,name:primitive-value-is-at-most-one-target-of-the-context] implies(addressable(targetCtx) && typ.IsPrimitiveType(), len(result) <= 1 && implies(len(result) == 1, result[0].Type == typ && leafTarget(result[0], targetCtx, lt.expr.Range())))
+//@   ghost checked after (cty.Type).Equals#1 : true
+//@   ghost sameType after (cty.Type).Equals#1 : callresult
+//@   assert before (cty.Type).Equals#1 : [C09,name:written-value-compared-with-the-declared-type] arg1 == typ
+//@   ensures [C09,name:written-primitive-value-must-be-of-the-declared-type] implies(addressable(targetCtx) && typ.IsPrimitiveType() && !isEmptyExpression(lt.expr), len(result) == ite(checked && sameType, 1, 0))
+//@   ghost evaluated2 after (hcl.Diagnostics).HasErrors#2 : true
+//@   ghost evalFailed2 after (hcl.Diagnostics).HasErrors#2 : callresult
+//@   ensures [C09,name:unevaluable-written-value-yields-nothing] implies(addressable(targetCtx) && typ.IsPrimitiveType() && !isEmptyExpression(lt.expr) && len(result) > 0, evaluated2 && !evalFailed2)
+//@   ensures [C09,name:undeclared-value-still-yields-the-declared-target] implies(addressable(targetCtx) && typ.IsPrimitiveType() && isEmptyExpression(lt.expr), len(result) == 1)
+//@   ensures [C09,name:type-is-the-declared-type] implies(addressable(targetCtx) && lt.cons.Type != cty.DynamicPseudoType && lt.cons.Type.IsPrimitiveType() && len(result) > 0, len(result) == 1 && result[0].Type == lt.cons.Type)
+//@   ensures [C09,name:type-is-inferred-from-the-value-where-declared-dynamic] implies(addressable(targetCtx) && lt.cons.Type == cty.DynamicPseudoType && evaluated && !evalFailed && inferred.IsPrimitiveType() && len(result) > 0, result[0].Type == inferred)
+//@   ensures [C09,name:every-collection-kind-is-handed-on] implies(addressable(targetCtx) && !typ.IsPrimitiveType(), (!typ.IsListType() || viaList) && (typ.IsListType() || !typ.IsSetType() || viaSet) && (typ.IsListType() || typ.IsSetType() || !typ.IsTupleType() || viaTuple) && (typ.IsListType() || typ.IsSetType() || typ.IsTupleType() || !typ.IsMapType() || viaMap) && (typ.IsListType() || typ.IsSetType() || typ.IsTupleType() || typ.IsMapType() || !typ.IsObjectType() || viaObject))
+//@   assert before (decoder.List).ReferenceTargets#1 : [C09,name:list-read-with-the-element-type] typ.IsListType() && arg0.expr == lt.expr && litTypeOf(arg0.cons.Elem) == typ.ElementType() && arg2 == targetCtx
+//@   assert before (decoder.Set).ReferenceTargets#1 : [C09,name:set-read-with-the-element-type] typ.IsSetType() && arg0.expr == lt.expr && litTypeOf(arg0.cons.Elem) == typ.ElementType() && arg2 == targetCtx
+//@   assert before (decoder.Map).ReferenceTargets#1 : [C09,name:map-read-with-the-element-type] typ.IsMapType() && arg0.expr == lt.expr && litTypeOf(arg0.cons.Elem) == typ.ElementType() && arg2 == targetCtx
+//@   assert before (decoder.Tuple).ReferenceTargets#1 : [C09,name:tuple-read-with-one-constraint-per-element-type] typ.IsTupleType() && arg0.expr == lt.expr && len(arg0.cons.Elems) == len(typ.TupleElementTypes()) && arg2 == targetCtx
+//@   loop 1 iter [C09,name:tuple-element-read-with-its-own-type] litTypeOf(cons.Elems[i]) == elemType
+//@   assert before decoder.ctyObjectToObjectAttributes#1 : [C09,name:object-attributes-of-the-type] arg0 == typ
+//@   assert before (decoder.Object).ReferenceTargets#1 : [C09,name:object-read-with-the-attributes-of-the-type] typ.IsObjectType() && arg0.expr == lt.expr && arg0.cons.Attributes == attrsOfType && arg2 == targetCtx
+
+// ---- C09/C02: a reference written as the value of an addressable declaration (schema.Reference with an
+// ---- address) is one target: its address is the traversal as written, its scope and name the declared ones,
+// ---- its range the traversal's own source range. Nothing without a declared address or for a traversal that is
+// ---- no address. JSON: the single variable must span the whole "${...}" string; a legacy string is parsed from
+// ---- the byte behind the opening quote, in the expression's file.
+//@ contract (decoder.Reference).ReferenceTargets (ref, ctx, tctx) (result)
+//@   ensures [C09,name:nothing-without-a-declared-address] implies(ref.cons.Address == nil, len(result) == 0)
+//@   ensures [C09,name:at-most-one-target] len(result) <= 1
+//@   ensures [C09,C02,name:scope-name-as-declared-and-a-range] implies(len(result) == 1, result[0].ScopeId == ref.cons.Address.ScopeId && result[0].Name == ref.cons.Name && result[0].RangePtr != nil)
+//@   ghost nativeTried after lang.TraversalToAddress#1 : true
+//@   ghost nativeOK after lang.TraversalToAddress#1 : err == nil
+//@   ghost nativeAddr after lang.TraversalToAddress#1 : addr
+//@   assert before lang.TraversalToAddress#1 : [C09,name:address-of-the-written-traversal] arg0 == as(ref.expr, "*hclsyntax.ScopeTraversalExpr").Traversal
+//@   ensures [C09,name:native-traversal-is-a-target-exactly-when-it-is-an-address] implies(ref.cons.Address != nil && typeis(ref.expr, "*hclsyntax.ScopeTraversalExpr"), nativeTried && len(result) == ite(nativeOK, 1, 0))
+//@   ensures [C09,C02,name:native-target-has-the-written-address-and-range] implies(len(result) == 1 && typeis(ref.expr, "*hclsyntax.ScopeTraversalExpr"), sameSteps(result[0].Addr, nativeAddr) && *result[0].RangePtr == as(ref.expr, "*hclsyntax.ScopeTraversalExpr").SrcRange)
+//@   assert before decoder.rangesEqual#1 : [C09,C02,name:json-variable-spans-the-whole-interpolation] len(vars) == 1 && arg0.Filename == vars[0].SourceRange().Filename && shiftedBy(arg0.Start, vars[0].SourceRange().Start, -3) && shiftedBy(arg0.End, vars[0].SourceRange().End, 2) && arg1 == ref.expr.Range()
+//@   assert before lang.TraversalToAddress#2 : [C09,name:address-of-the-written-traversal] arg0 == vars[0]
+//@   assert before hclsyntax.ParseTraversalAbs#1 : [C09,C02,name:legacy-string-parsed-at-its-own-place] arg1 == ref.expr.Range().Filename && shiftedBy(arg2, ref.expr.Range().Start, 1)
+//@   assert before lang.TraversalToAddress#3 : [C09,name:address-of-the-written-traversal] arg0 == traversal
+//@   ghost viaVar after lang.TraversalToAddress#2 : true
+//@   ghost varAddr after lang.TraversalToAddress#2 : addr
+//@   ghost varRange after lang.TraversalToAddress#2 : vars[0].SourceRange()
+//@   ghost viaLegacy after lang.TraversalToAddress#3 : true
+//@   ghost legacyAddr after lang.TraversalToAddress#3 : addr
+//@   ghost legacyRange after lang.TraversalToAddress#3 : traversal.SourceRange()
+//@   ensures [C09,C02,name:json-variable-target-has-the-written-address-and-range] implies(len(result) == 1 && viaVar, sameSteps(result[0].Addr, varAddr) && *result[0].RangePtr == varRange)
+//@   ensures [C09,C02,name:legacy-string-target-has-the-parsed-address-and-range] implies(len(result) == 1 && viaLegacy, sameSteps(result[0].Addr, legacyAddr) && *result[0].RangePtr == legacyRange)
+
+// ---- C09: alternatives. Every alternative reads the same expression under the same context with its own
+// ---- constraint; the scan goes on only past alternatives that yield nothing, and the answer is the answer of
+// ---- one alternative, unchanged (or nothing).
+//@ contract (decoder.OneOf).ReferenceTargets (oo, ctx, targetCtx) (result)
+//@   assert before decoder.newExpression#1 : [C09,name:alternative-reads-the-same-expression-with-its-own-constraint] arg1 == oo.expr && arg2 == con
+//@   assert before invoke:ReferenceTargets#1 : [C09,name:alternative-collects-under-the-same-context] arg1 == targetCtx
+//@   ghost asked after invoke:ReferenceTargets#1 : true
+//@   ghost answer after invoke:ReferenceTargets#1 : callresult
+//@   loop 1 iter [C09,name:scan-continues-only-past-empty-answers] implies(len(targets) >= 0, len(targets) == 0)
+//@   ensures [C09,name:answer-of-one-alternative-or-nothing] len(result) == 0 || (asked && result == answer)
+
+// ---- C09/C02: a set. Its elements have no position or key, so they never get an address of their own: under a
+// ---- context the only target is the one of the whole set (address, type, ranges of the context - see
+// ---- wholeSetReferenceTargets) with nothing nested; without a context the targets found inside the elements
+// ---- (each read with the element constraint) are passed up as they are.
+//@ contract (decoder.Set).ReferenceTargets (set, ctx, targetCtx) (result)
+//@   assert before decoder.newExpression#1 : [C09,name:element-read-with-the-element-constraint] arg1 == elemExpr && arg2 == set.cons.Elem
+//@   assert before invoke:ReferenceTargets#1 : [C09,name:set-elements-get-no-address] targetCtx == nil && arg1 == nil
+//@   loop 1 invariant [C09] targetCtx == nil || len(elemTargets) == 0
+//@   ensures [C09,name:under-a-context-only-the-whole-set] implies(targetCtx != nil, len(result) <= 1)
+//@   ensures [C09,name:nothing-unless-addressable-as-expression-type] implies(targetCtx != nil && !targetCtx.AsExprType, len(result) == 0)
+//@   ensures [C09,C02,name:whole-set-target-is-the-one-of-the-context] implies(targetCtx != nil && len(result) == 1, sameSteps(result[0].Addr, targetCtx.ParentAddress) && sameSteps(result[0].LocalAddr, targetCtx.ParentLocalAddress) && result[0].ScopeId == targetCtx.ScopeId && rangeFromCtx(result[0], targetCtx, set.expr.Range()) && defRangeFromCtx(result[0], targetCtx) && visibleFromCtx(result[0], targetCtx))
+//@   ensures [C09,name:no-element-targets-under-a-set] implies(targetCtx != nil && len(result) == 1, len(result[0].NestedTargets) == 0)
+
+// ---- C09/C02: an object. Only items whose key is a plain key AND names an attribute the constraint declares are
+// ---- handed on as declared (each under its own key); under a context the result is the one target of the whole
+// ---- object (of the context, see wholeObjectReferenceTargets) with the attribute targets nested under it,
+// ---- without a context the attribute targets themselves. A for-expression is one target of still unknown type.
+//@ contract (decoder.Object).ReferenceTargets (obj, ctx, targetCtx) (result)
+//@   ghost rawOK after decoder.rawObjectKey#1 : ok
+//@   assert before decoder.rawObjectKey#1 : [C09,name:key-of-the-item-itself] arg0 == item.Key
+//@   loop 1 invariant [C09,claim,name:nothing-for-attributes-unknown-to-the-schema] forallkey(k, declaredAttributes, haskey(obj.cons.Attributes, k))
+//@   loop 1 iter [C09,name:known-item-is-recorded-under-its-own-key] implies(rawOK && haskey(obj.cons.Attributes, keyName), haskey(declaredAttributes, keyName) && declaredAttributes[keyName].Key == item.Key && declaredAttributes[keyName].Value == item.Value)
+//@   loop 1 iter [C09,name:unknown-item-is-not-recorded] implies(!(rawOK && haskey(obj.cons.Attributes, keyName)), len(declaredAttributes) == old(len(declaredAttributes)))
+//@   ghost collectedEmpty after (decoder.Object).collectAttributeTargets#1 : true
+//@   ghost attrsEmpty after (decoder.Object).collectAttributeTargets#1 : callresult
+//@   ghost collected after (decoder.Object).collectAttributeTargets#2 : true
+//@   ghost attrs after (decoder.Object).collectAttributeTargets#2 : callresult
+//@   assert before (decoder.Object).collectAttributeTargets#1 : [C09,name:attributes-collected-under-the-same-context] arg2 == targetCtx && len(arg3) == 0
+//@   assert before (decoder.Object).collectAttributeTargets#2 : [C09,name:attributes-collected-under-the-same-context] arg2 == targetCtx && arg3 == declaredAttributes
+//@   ensures [C09,name:under-a-context-only-the-whole-object] implies(targetCtx != nil, len(result) <= 1)
+//@   ensures [C09,C02,name:whole-object-target-is-the-one-of-the-context] implies(targetCtx != nil && len(result) == 1, leafTarget(result[0], targetCtx, obj.expr.Range()))
+//@   ensures [C09,name:for-expression-is-one-target-of-unknown-type] implies(targetCtx != nil && typeis(obj.expr, "*hclsyntax.ForExpr"), len(result) == 1 && result[0].Type == cty.DynamicPseudoType)
+//@   ensures [C09,name:attribute-targets-are-nested-under-the-object] implies(targetCtx != nil && len(result) == 1 && !typeis(obj.expr, "*hclsyntax.ForExpr"), (collectedEmpty && result[0].NestedTargets == attrsEmpty) || (collected && result[0].NestedTargets == attrs))
+//@   ensures [C09,name:without-a-context-the-attribute-targets-themselves] implies(targetCtx == nil && collected, result == attrs)
+
+// ---- C09/C02: an attribute. Its value is read with the attribute's own constraint. The value is collected under
+// ---- a context only if the schema gives the attribute an address that resolves and marks it addressable (as
+// ---- expression type or as reference); that context carries the resolved address, the declared scope / name /
+// ---- flags, and the attribute's own extent and name as range and definition range. An attribute addressable as
+// ---- reference is itself the first target: resolved address, declared scope and name, range = the attribute,
+// ---- definition range = its name. Everything else in the result is what the value yields.
+//@ contract (*decoder.PathDecoder).decodeReferenceTargetsForAttribute (d, attr, attrSchema) (result)
+//@   ghost resolved after decoder.resolveAttributeAddress#1 : ok
+//@   ghost resolvedAddr after decoder.resolveAttributeAddress#1 : attrAddr
+//@   ghost asked after invoke:ReferenceTargets#1 : true
+//@   ghost fromValue after invoke:ReferenceTargets#1 : callresult
+//@   assert before (*decoder.PathDecoder).newExpression#1 : [C09,name:value-read-with-the-attribute-constraint] arg1 == attr.Expr && arg2 == attrSchema.Constraint
+//@   assert before decoder.resolveAttributeAddress#1 : [C09,name:address-from-the-declared-steps] arg0 == attr && arg1 == attrSchema.Address.Steps
+//@   assert before invoke:ReferenceTargets#1 : [C09,name:context-exactly-for-addressable-attributes] (arg1 != nil) == (attrSchema.Address != nil && resolved && (attrSchema.Address.AsExprType || attrSchema.Address.AsReference))
+//@   assert before invoke:ReferenceTargets#1 : [C09,name:context-carries-the-resolved-address-and-the-declared-scope] implies(arg1 != nil, sameSteps(arg1.ParentAddress, resolvedAddr) && arg1.ScopeId == attrSchema.Address.ScopeId && arg1.FriendlyName == attrSchema.Address.FriendlyName && arg1.AsExprType == attrSchema.Address.AsExprType && arg1.AsReference == attrSchema.Address.AsReference && arg1.ParentLocalAddress == nil && arg1.TargetableFromRangePtr == nil)
+//@   assert before invoke:ReferenceTargets#1 : [C09,C02,name:context-ranges-are-the-attribute-and-its-name] implies(arg1 != nil, arg1.ParentRangePtr != nil && *arg1.ParentRangePtr == attr.Range && arg1.ParentDefRangePtr != nil && *arg1.ParentDefRangePtr == attr.NameRange)
+//@   ensures [C09,name:nothing-for-a-value-that-cannot-hold-targets] implies(!asked, len(result) == 0)
+//@   ensures [C09,name:one-own-target-exactly-when-addressable-as-reference] implies(asked, len(result) == len(fromValue) + ite(attrSchema.Address != nil && attrSchema.Address.AsReference, 1, 0))
+//@   ensures [C09,C02,name:own-target-is-the-attribute-itself] implies(asked && attrSchema.Address != nil && attrSchema.Address.AsReference, sameSteps(result[0].Addr, resolvedAddr) && result[0].ScopeId == attrSchema.Address.ScopeId && result[0].Name == attrSchema.Address.FriendlyName && declaredBy(result[0], attr))
